@@ -2,6 +2,7 @@ package main
 
 import (
 	"context"
+	"encoding/json"
 	"errors"
 	"fmt"
 	"io"
@@ -589,12 +590,28 @@ func shapeOf(p []byte) string {
 	s := string(p)
 	switch {
 	case strings.HasPrefix(s, "{"):
+		// a JSON record is ONE valid JSON object
+		if !json.Valid([]byte(strings.TrimRight(s, "\n"))) {
+			return "json-invalid"
+		}
 		return "json"
 	case strings.Contains(s, "\x1b["):
 		return "color"
 	}
+	// a logfmt record is a sequence of key=value tokens (values bare or quoted)
+	// (in go-test / debug mode an error attribute is followed by extra lines describing the error: the
+	// record itself is the first line)
+	first := s
+	if i := strings.IndexByte(s, '\n'); i >= 0 {
+		first = s[:i]
+	}
+	if !coreReLogfmt.MatchString(first) {
+		return "logfmt-invalid"
+	}
 	return "logfmt"
 }
+
+var coreReLogfmt = regexp.MustCompile(`^(?:[^\s="]+=(?:"(?:[^"\\]|\\.)*"|[^\s"]*)(?:\s+|$))*$`)
 
 // observe records what the public API shows for every logger created so far.  New loggers
 // discovered while observing (through Parent/Root/Each) get fresh ids, which the model will
@@ -812,7 +829,11 @@ func (r *coreRun) logF(l *slog.Entry, ev coreEvent, rec map[string]any) {
 				outcome = "panic: " + fmt.Sprint(p)
 			}
 		}()
-		l.Logit(bg, slog.Level(ev.A), "fault probe", "k01", 1)
+		msg := "fault probe"
+		if ev.K == "big" {
+			msg += " " + strings.Repeat("0123456789abcdef", 6400)
+		}
+		l.Logit(bg, slog.Level(ev.A), msg, "k01", 1)
 	}()
 	sink.failP = nil
 	sink.partial = false
